@@ -445,7 +445,7 @@ func runWrite(w *vh.W, c *jcase) {
 	if c.DroppedErr >= 0 {
 		derr = vh.Some(vh.N(uint64(c.DroppedErr)))
 	}
-	// known-finding shape (inputs only): an old point shares its window with an in-retention point
+	// former known-finding shape (inputs only, now only counted): an old point shares its window with an in-retention point
 	sig := ""
 	nold := 0
 	if c.HasRet {
@@ -461,13 +461,14 @@ func runWrite(w *vh.W, c *jcase) {
 		}
 	}
 	t := fmt.Sprintf("(CWrite %s %s %s %s %s %s)", zz(c.SGD), minb, zzs(c.Pre), zzs(c.Pts), vh.List(mt), derr)
-	idx := w.Add(t, c, nold > 0 && nold < len(c.Pts), sig)
+	// former finding shape (fixed by /repo commit c26a5a4c30): still generated and counted, no longer tolerated
+	idx := w.Add(t, c, nold > 0 && nold < len(c.Pts), "")
 	if c.OtherErr != "" {
 		w.Fail(idx, "WritePointsPrivileged returned an unexpected error: "+c.OtherErr, "")
 	}
 	w.Count("kind", "write")
 	w.Count("write_old_points", fmt.Sprint(min(nold, 5)))
-	w.Count("tagged_ride_shape", fmt.Sprint(sig != ""))
+	w.Count("old_point_shares_window_with_new_point", fmt.Sprint(sig != ""))
 }
 
 func run(w *vh.W, c *jcase) {
@@ -519,7 +520,7 @@ func main() {
 		// write: single old point rejected, single new accepted, exact edge from below
 		{Kind: "write", SGD: hour, HasRet: true, M: base - 100*day + 1234, Pts: []int64{base - 100*day + 1233}},
 		{Kind: "write", SGD: hour, HasRet: true, M: base - 100*day + 1234, Pts: []int64{base - 100*day + 1234 + 120*sec}},
-		// known finding: old point rides along with a newer point of the same shard group
+		// former finding (fixed in c26a5a4c30): old point rides along with a newer point of the same shard group
 		{Kind: "write", SGD: day, HasRet: true, M: base - 50*day + 12*hour, Pts: []int64{base - 50*day + 13*hour, base - 50*day + 1*hour, base - 51*day + 23*hour}},
 		{Kind: "write", SGD: 7 * day, HasRet: false, Pts: []int64{models.MinNanoTime, 0, -1, models.MaxNanoTime}},
 	}
